@@ -462,6 +462,7 @@ func (f *Frame) loopHead(li *loopInfo, st *state) {
 		u.sortOfSite(s, srt)
 		h := u.ctx.freshConst(fmt.Sprintf("%s.L%d.M:%s", f.prefix, li.ordinal, s), SArr(SInt, srt))
 		u.putArr(st.mem, s, h)
+		u.typingAxiom(h, s, na)
 		if s == strSite {
 			// strings are immutable: everything allocated before the loop is unchanged
 			u.ctx.assert("loop-str", fmt.Sprintf("(forall ((a! Int)) (! (=> (< a! %s) (= (select %s a!) (select %s a!))) :pattern ((select %s a!))))", entryAlloc, h, old, h))
@@ -486,6 +487,7 @@ func (f *Frame) loopHead(li *loopInfo, st *state) {
 		env := f.loopEnv(li, st, nil)
 		switch c.Kind {
 		case "invariant":
+			env.assume = true
 			term, _, err := f.evalClause(env, c.Label, c.Src, func() string { return env.evalBool(c.Expr) })
 			if err == nil {
 				u.ctx.assert("inv:"+c.Label, implies(st.reach, term))
